@@ -23,6 +23,41 @@ var plans = map[string]plan{
 		Quick:    []job{{"plain", 8}},
 		Thorough: []job{{"plain", 16}, {"race", 4}},
 	},
+	"C02": {
+		Level:    "exploration",
+		Rule:     "case = 1..3 well-formed values (generated typed trees) back-to-back + 0..64 trailing bytes on ONE instance of each skipper, under one of 6 fragmentation schedules, optionally with the final data delivered together with io.EOF; plus the full container x key-type x value-type x size grid under all schedules, nesting 1..63 for every container kind, strings around the 4096/8192 boundaries. Non-trivial iff a value has nesting >= 2, or is a container > 20 bytes, or is > 4096 bytes; distinct by (value shapes, bytes, trailing length, schedule, eof mode).",
+		Required: []string{"values skipped", "reader-skip-decoder values", "grid combinations", "long-string cases"},
+		Quick:    []job{{"plain", 8}},
+		Thorough: []job{{"plain", 16}, {"race", 4}},
+	},
+	"C03": {
+		Level:    "exploration",
+		Rule:     "case = input bytes run through every buffer-based decoding entry point (23 + Binary.Skip/BytesSkipDecoder for several requested type bytes) at two guard-page placements (input ends at / starts after a PROT_NONE page). Inputs: all strings of length <= 2, grammar-alphabet strings, mutations/truncations/boundary substitutions of valid encodings of every shape (values, Base/BaseResp/exception structs, messages, unknown-field sequences, TTHeader frames), huge size fields. Non-trivial iff length >= 1 and (mutated valid encoding or alphabet string of length >= 3); distinct by bytes.",
+		Required: []string{"guarded decoder calls", "decoder successes", "decoder errors", "full truncation sweeps"},
+		Quick:    []job{{"plain", 8}},
+		Thorough: []job{{"plain", 16}, {"asan", 8}, {"race", 4}},
+	},
+	"C04": {
+		Level:    "fault_enumeration",
+		Rule:     "case = operation history over {Next,Peek,Skip,ReadBinary}x{0,1,7,4095,4096,4097,8193,20000} + Release (bounded-exhaustive to length 3/4 over these 33 symbols x 6 source behaviours; random to 300 steps incl. negative counts) x hostile source (chunk schedule, zero-byte reads, error kind, error position, error with/after the final data; every error position of every stream <= 64 bytes; endless zero-read source) for the io.Reader-backed and the bytes-backed reader. Every result is checked online against a cursor model over a position-coded stream. Non-trivial iff the history saw a growth (request > 4096 or > 1 pool malloc), a request spanning >= 2 source reads, a surfaced error, or a Release with an unread buffered tail; distinct by (ops, source behaviour, reader kind).",
+		Required: []string{"errors surfaced", "histories with growth", "releases with unread buffered tail", "errors delivered with data", "zero reads served", "error-position cases", "no-progress histories"},
+		Quick:    []job{{"plain", 8}, {"poison", 4}},
+		Thorough: []job{{"plain", 16}, {"poison", 8}},
+	},
+	"C05": {
+		Level:    "fault_enumeration",
+		Rule:     "case = operation history over {Malloc eager, Malloc lazily-filled, WriteBinary}x{0,1,3,4095,4096,4097,8193,20000} + Flush (bounded-exhaustive to length 3/4 over 25 symbols x 7 configurations; random to 180 steps) x sink behaviour (never fails / fails at the k-th Write for every k) x writer kind (io.Writer-backed; bytes-backed over nil / empty-with-capacity / partial / full initial slices). Regions get distinct content, lazily filled ones only right before Flush in shuffled order. Checked online against a region/concatenation model. Non-trivial iff >= 1 growth between flushes (> 4096 unflushed bytes), a lazily filled region, a sink failure or >= 2 flushes; distinct by (ops, configuration).",
+		Required: []string{"flushes", "histories with growth", "histories with lazily filled regions", "sink failures injected", "bytes-writer flushes judged", "fail-at-every-k histories"},
+		Quick:    []job{{"plain", 8}, {"poison", 4}},
+		Thorough: []job{{"plain", 16}, {"poison", 8}},
+	},
+	"C09": {
+		Level:    "exploration",
+		Rule:     "case = history that retains every slice handed out by Next/Peek (resp. every Malloc region) until Release/Flush while later requests force 0..6 growths, over the io.Reader-backed and bytes-backed reader/writer with caller buffers of power-of-two and other capacities; SkipDecoder runs retaining up to 200 results over a fragmenting source; ReaderSkipDecoder growth sequences. Configuration A (poisoning pool shim: recycled buffers are poisoned and quarantined, foreign/double frees and writes after recycle are events) and configuration B (real pool plus a co-tenant that between any two operations takes buffers from every relevant size class, checks their address ranges against all live slices and caller memory, and overwrites them). Non-trivial iff a slice is retained across a request > 4096 (growth) or a caller-owned buffer is involved; distinct by (configuration, ops, source/initial-slice class).",
+		Required: []string{"reader histories retaining a slice across a growth", "caller-owned reader buffers", "caller-owned writer targets", "co-tenant buffers scribbled", "pool frees (shim)", "skip-decoder results retained", "reader-skip-decoder growth sequences", "growth ladders"},
+		Quick:    []job{{"plain", 8}, {"poison", 8}},
+		Thorough: []job{{"plain", 16}, {"poison", 16}},
+	},
 }
 
 func init() {
